@@ -52,11 +52,17 @@ pub fn from_config(cfg: &[Value]) -> Result<HashMap<String, Arc<dyn Connector>>,
 pub fn from_value(value: &Value) -> Result<ConnectorRef, Error> {
     let name = value
         .get("name")
+        .and_then(Value::as_str)
         .ok_or_else(|| err_msg("missing connector name"))?;
     if name == "deny" {
         bail!("connector name \"deny\" is reserved")
     }
-    let tname = value.get("type").unwrap_or(name).as_str().unwrap();
+    let tname = match value.get("type") {
+        Some(t) => t
+            .as_str()
+            .ok_or_else(|| err_msg(format!("invalid connector type: {:?}", t)))?,
+        None => name,
+    };
     match tname {
         "direct" => direct::from_value(value),
         "http" => http::from_value(value),
